@@ -22,6 +22,7 @@ package dual
 //	closed-empty       after cancel + Close + 1 virtual minute no goroutine started by the module is left
 
 import (
+	"context"
 	"crypto/sha256"
 	"fmt"
 	"math/rand"
@@ -286,6 +287,37 @@ func vC03DRun(t *testing.T, c *vh.Case, seed int64, cm vC03DCancel, scoped bool)
 		c.Logf("%s", detail())
 		out.Sig = fmt.Sprintf("%s/%d/%d/%v/%v/%s/%d", op.Kind, op.Quorum, op.Count, len(res.WRT0) > 0, len(res.LRT0) > 0, cm.Mode, len(out.Boundaries))
 
+		// ---- a caller that got what it wanted: on the same instance, FindProvidersAsync once more with a consumer that
+		// stops reading after the first provider and cancels its context ("for p := range ch { use(p); break }; cancel()").
+		// Whatever the merge still holds must be dropped; nothing may stay blocked on the abandoned channel.
+		if cm.Mode == "none" && op.Kind == "findprovs" && !c.Failed() {
+			ctx2, cancel2 := context.WithCancel(context.Background())
+			got := 0
+			for range n.D.FindProvidersAsync(ctx2, op.Cid, op.Count) {
+				got++
+				break
+			}
+			cancel2()
+			time.Sleep(vC03DSettle)
+			synctest.Wait()
+			now2, gs2 := vC03DCensus()
+			c.Clause("no-leak-after-walkaway")
+			c.Obs("walkaway_probes", 1)
+			c.Obs("walkaway_probes_with_item", got)
+			if extra := vC03DExtra(base, now2); len(extra) > 0 {
+				frame := "unknown"
+				for _, g := range gs2 {
+					if base[g.CreatedBy+"@"+g.CreatedAt] == 0 {
+						c.Logf("leaked goroutine:\n%s", g.Text)
+						if f := vC03DTopFrame(g.Text); f != "unknown" && (frame == "unknown" || f < frame) {
+							frame = f
+						}
+					}
+				}
+				c.FailSig("no-leak-after-walkaway", "no-leak-after-walkaway@"+frame, "FindProvidersAsync (count %d): the consumer took %d provider(s), cancelled its context and stopped reading; %v later goroutines started by the module beyond the at-rest census are still alive: %v", op.Count, got, vC03DSettle, extra)
+			}
+		}
+
 		// ---- shutdown
 		res.Keep()
 		n.Close()
@@ -315,7 +347,7 @@ func vC03DRun(t *testing.T, c *vh.Case, seed int64, cm vC03DCancel, scoped bool)
 
 func TestVerif_C03_dual(t *testing.T) {
 	vh.Run(t, vh.Spec{Prop: "C03", Unit: "dual", Quick: 300, Thorough: 5000, CostMs: 300,
-		Rule: "dual client over two simulated networks (C15 generator; 2/3 of the scenarios with 20-100% failing / silent / slow-dialing peers per network, each table empty in ~1/4); one operation per scenario among Provide, PutValue, GetValue, SearchValue (quorum none/0/1/2/K), FindPeer, FindProvidersAsync (count 0/1/2/5/K); the scenario is run un-cancelled, then rebuilt from the same seed and run cancelled before the call and at PRNG-chosen boundary instants of the un-cancelled run (quick: 3 instants, cancel() or deadline; thorough: up to 12); non-trivial = the un-cancelled run made RPCs and at least one cancelled run had its context end while the call was running; distinct by (operation, parameters, table emptiness, number of boundaries)",
+		Rule: "dual client over two simulated networks (C15 generator; 2/3 of the scenarios with 20-100% failing / silent / slow-dialing peers per network, each table empty in ~1/4); one operation per scenario among Provide, PutValue, GetValue, SearchValue (quorum none/0/1/2/K), FindPeer, FindProvidersAsync (count 0/1/2/5/K; after the un-cancelled run once more on the same instance with a consumer that stops reading after the first provider and cancels); the scenario is run un-cancelled, then rebuilt from the same seed and run cancelled before the call and at PRNG-chosen boundary instants of the un-cancelled run (quick: 3 instants, cancel() or deadline; thorough: up to 12); non-trivial = the un-cancelled run made RPCs and at least one cancelled run had its context end while the call was running; distinct by (operation, parameters, table emptiness, number of boundaries)",
 		Clauses: []string{"return-bounded", "cancel-prompt", "chan-closed", "quiet-after-return", "no-leak", "closed-empty"}},
 		func(c *vh.Case) {
 			seed := c.R.Int63()
